@@ -287,6 +287,9 @@ PROPS = {
         families=[
             dict(mode="live", name="park", quick=300, thorough=4000, nontrivial=r" park\.wait_co@\S+ opt\.take 0 0 [0-9]", timeout=600),
             dict(mode="live", name="blocker", quick=240, thorough=3000, nontrivial=r"(opt\.take 0 0 [0-9]|ret - blk\.park 1 )", timeout=600),
+            # one unpark per park, untimed parks only, nobody rescues: a lost wake-up is an oracle failure (hang of the round,
+            # recorded BEFORE a second unpark checks that the coroutine was alive), not just a delay
+            dict(mode="live", name="park_once", quick=1200, thorough=12000, nontrivial=r" park\.wait_co@\S+ opt\.take 0 0 [0-9]", timeout=900),
             dict(mode="det", name="blocker_thr", quick=600, thorough=10000, nontrivial=r"park_return 0 0 1 "),
         ] + ([
             # only on a tree with the F6 fix: short timed parks that nobody unparks and nobody rescues, the kernel tail
@@ -305,7 +308,7 @@ PROPS = {
             "time is one bit per kernel tail (`due`: its deadline has passed); that the timer thread pops an entry only at or after its time, and does pop it, is C08",
             "durations are whole milliseconds >= 1 ms (sub-millisecond time-outs are stored as 'no time-out': defect F2, owned by C08)",
         ],
-        rule="det mode (blocker_thr): Blocker in thread context, virtual ThreadPark, 1-5 parks with virtual time-outs, 1-3 unparker threads; live mode, 1-3 workers, perturbation 0-60%: one parker (coroutine on its per-coroutine handle, or coroutine/thread on fresh Blockers), 1-4 unparkers (threads and coroutines), 1-4 rounds of park / park_timeout(1-30 ms); non-trivial = some actor took the coroutine out of the slot (or a thread-context park timed out); distinct = SHA-1 of the canonical trace",
+        rule="det mode (blocker_thr): Blocker in thread context, virtual ThreadPark, 1-5 parks with virtual time-outs, 1-3 unparker threads; live mode, 1-3 workers, perturbation 0-60%: one parker (coroutine on its per-coroutine handle, or coroutine/thread on fresh Blockers), 1-4 unparkers (threads and coroutines), 1-4 rounds of park / park_timeout(1-30 ms); family park_once: 3-10 (thorough 3-16) rounds of `at=i; while go<i {park()}` against exactly ONE `go=i; unpark()` per round by a thread or a fresh coroutine, aimed before / at / after the registration of the park, no time-outs, no rescuer, a round that does not complete after its unpark returned while every actor is quiet for 3 s is the oracle failure `lost wake-up`; non-trivial = some actor took the coroutine out of the slot (or a thread-context park timed out); distinct = SHA-1 of the canonical trace",
     ),
     "C15": dict(
         lean_props=["MayVerif.Props.C15"],
